@@ -211,6 +211,23 @@ def engine_table(F, qname):
     return out, g
 
 
+def discover_mark_table(g):
+    """name of the array that a switch-based generator uses as its last-writer table: the array that is assigned `table[<register>] = <position>` in the
+    largest number of places (found by use, so that renaming it does not blind the rules)"""
+    from astq import walk as _walk
+    cnt = {}
+    for x in _walk(g['body']):
+        if x['k'] == 'Assign':
+            l = strip_all(x['l'])
+            if l['k'] == 'Idx' and strip_all(l['b'])['k'] in ('Ref', 'Mem'):
+                nm = show(l['b']).split('.')[-1].split('>')[-1]
+                cnt[nm] = cnt.get(nm, 0) + 1
+    if not cnt:
+        return None
+    best = max(cnt, key=cnt.get)
+    return best if cnt[best] >= 8 else None
+
+
 def case_handlers(F, g, enum_by_val):
     """Handlers of a generator that translates instructions in a `switch` inside a loop (the RV64 vector back-end): one pseudo
     function per case label = the declarations of the loop body that precede the switch followed by the statements of the case."""
@@ -255,6 +272,10 @@ def case_handlers(F, g, enum_by_val):
             continue
         for lst in cur:
             lst.append(x)
+    mt = discover_mark_table(g)
+    global MARK_TABLES
+    if mt and mt not in MARK_TABLES:
+        MARK_TABLES = MARK_TABLES + (mt,)
     hs = {}
     for name, (lst, ln) in cases.items():
         if name == 'default':
